@@ -1,6 +1,6 @@
 (* C48 wire functions.
    input : [h bst tls [chain0] [chain1] [chain2] [chain3] [chain4] [chain5] [chain6] [chain7] [chain8]]   (see harness/cmd/c48/main.go)
-   output: [[calls] status body location xfake xmod contacted open] *)
+   output: [[calls] status body location xfake xmod contacted open [hdrs]] *)
 From Coq Require Import List ZArith Bool.
 From Bfe Require Import lib.Val model.Callbacks.
 Import ListNotations.
@@ -26,7 +26,7 @@ Definition decode_C48 (v : val) : option c48_input :=
 Definition chain_at (i : c48_input) (p : Z) : list Z := pad (i_h i) (nth (Z.to_nat p) (i_chains i) []).
 
 Definition enc_reply (calls : list Z) (r : reply) (contacted open : Z) : val :=
-  VL [vLZ calls; VZ (r_status r); VB (r_body r); VB (r_loc r); VZ (r_xfake r); VZ (r_xmod r); VZ contacted; VZ open].
+  VL [vLZ calls; VZ (r_status r); VB (r_body r); VB (r_loc r); VZ (r_xfake r); VZ (r_xmod r); VZ contacted; VZ open; vLB (r_hdrs r)].
 
 Definition run_C48 (v : val) : val :=
   match decode_C48 v with
@@ -87,17 +87,18 @@ Fixpoint first_decisive (i : c48_input) (ps : list Z) : option Z :=
 
 Definition prop_C48 (iv o : val) : bool :=
   match decode_C48 iv, o with
-  | Some i, VL [VL callsv; VZ status; VB body; VB loc; VZ xfake; VZ xmod; VZ contacted; VZ open] =>
-    match all_some (map as_Z callsv) with
-    | None => false
-    | Some calls =>
+  | Some i, VL [VL callsv; VZ status; VB body; VB loc; VZ xfake; VZ xmod; VZ contacted; VZ open; hdrsv] =>
+    match all_some (map as_Z callsv), as_LB hdrsv with
+    | Some calls, Some hdrs =>
+      (* the full multiset of the module's header fields, repeated keys included *)
+      let hdrs_are (l : list (list Z)) := val_eqb (vLB hdrs) (vLB l) in
       let v p := chain_verdict (chain_at i p) in
       let r p := ret (v p) in
       (* open-ness expected when nothing before HandleRequestFinish closed the connection *)
       let keep := if r 7 =? VFinish then 0 else 1 in
       let sent_nothing := (status =? 0) && list_Z_eqb body [] && (open =? 0) in
       let closed_after_reply := negb (status =? 0) && (open =? 0) in
-      let is_redirect k := (status =? redir_code k) && list_Z_eqb loc (redir_url k) && (xfake =? 0) && (xmod =? 0) in
+      let is_redirect k := (status =? redir_code k) && list_Z_eqb loc (redir_url k) && (xfake =? 0) && (xmod =? 0) && hdrs_are (extra_hdrs k) in
       (* after a response is in hand the HandleReadResponse chain may still finish or redirect *)
       let after_read_response (otherwise : bool) :=
           if r 6 =? VFinish then closed_after_reply
@@ -113,14 +114,15 @@ Definition prop_C48 (iv o : val) : bool :=
                else if ret c =? VRedirect then is_redirect (variant c) && (open =? keep)
                else (* Response *)
                  after_read_response ((status =? resp_status (variant c)) && list_Z_eqb body [118; 48 + variant c]
-                                      && (xmod =? 1) && (xfake =? 0))
+                                      && (xmod =? 1) && (xfake =? 0) && hdrs_are (extra_hdrs (variant c)))
                  && ((r 6 =? VFinish) || (open =? keep)))
             | None =>
               if r 5 =? VFinish then (contacted =? 0) && closed_after_reply
               else (contacted =? 1)
-                   && after_read_response ((status =? i_bst i) && list_Z_eqb body [98; 107] && (xfake =? 1) && (xmod =? 0))
+                   && after_read_response ((status =? i_bst i) && list_Z_eqb body [98; 107] && (xfake =? 1) && (xmod =? 0) && hdrs_are [])
                    && ((r 6 =? VFinish) || (open =? keep))
             end)
+    | _, _ => false
     end
   | _, _ => false
   end.
